@@ -130,6 +130,19 @@ class Ctx:
         r["vecs"] = None if vecs is None else np.array(vecs)
         r["gv"] = None if gv is None else np.array(gv)
         r["freq"] = None if freq is None else np.array(freq)
+        if connected and r["eig"] is not None:
+            # "with band connection the per-q set of frequencies is only re-ordered": undo the re-ordering (stable sort by
+            # eigenvalue) and carry eigenvectors and group velocities along, so that a velocity or eigenvector attached
+            # to the wrong band shows up in the ordinary comparisons
+            perm = np.argsort(r["eig"], kind="stable")
+            r["eig"] = r["eig"][perm]
+            if r["vecs"] is not None:
+                r["vecs"] = r["vecs"][:, perm]
+            if r["gv"] is not None:
+                r["gv"] = r["gv"][perm]
+            r["_refs"] = dict(freq=None, D=None, vecs=None, gv=None)
+            r["connected_canonicalised"] = True
+            r["connected"] = False
         self.reports.append(r)
 
 
